@@ -118,19 +118,34 @@ def search(chk, n_cases):
                 need_psd = True
             else:
                 L = rng.randint(2, 5)
-                chain = oqupy.SystemChain([2] * L)
+                # sites of different Hilbert-space dimensions (the first one, which carries the bath, is a qubit); the forced
+                # case of every run has at least one qutrit
+                dims = [2] + [rng.choice([2, 2, 3]) for _ in range(L - 1)]
+                if it == 3 and 3 not in dims:
+                    dims[rng.randrange(1, L)] = 3
+                info["site_dimensions"] = dims
+                lower = lambda dd: np.diag(np.sqrt(np.arange(1, dd)), 1).astype(complex)
+                szd = lambda dd: np.diag(np.arange(dd)[::-1] - (dd - 1) / 2).astype(complex)
+                chain = oqupy.SystemChain(dims)
                 for i in range(L):
-                    chain.add_site_hamiltonian(i, 0.5 * sz)
+                    chain.add_site_hamiltonian(i, 0.5 * szd(dims[i]))
                     if rng.random() < 0.5:
-                        chain.add_site_dissipation(i, sm, 0.2)
+                        chain.add_site_dissipation(i, lower(dims[i]), 0.2)
                 for i in range(L - 1):
-                    chain.add_nn_hamiltonian(i, 0.6 * sx, sx)
+                    chain.add_nn_hamiltonian(i, 0.6 * (lower(dims[i]) + lower(dims[i]).T), lower(dims[i + 1]) + lower(dims[i + 1]).T)
                 pt = quiet(oqupy.pt_tempo_compute, bath, 0.0, n * dt, parameters=par, progress_type="silent")
                 # single sites and site subsets (neighbours, the two ends, gapped tuples): all of them reported states
                 subsets = [(0, 1)] + ([(0, L - 1)] if L >= 3 else []) + [tuple(sorted(rng.sample(range(L), rng.randint(2, min(3, L))))) for _ in range(2)]
                 subsets = sorted(set(subsets))
                 info["recorded_subsets"] = subsets
-                p = oqupy.PtTebd(oqupy.AugmentedMPS([rho0] * L), chain, [pt] + [None] * (L - 1),
+                inits = []
+                for dd in dims:
+                    if dd == 2:
+                        inits.append(rho0)
+                    else:
+                        b_ = np.array([[rng.gauss(0, 1) + 1j * rng.gauss(0, 1) for _ in range(dd)] for _ in range(dd)])
+                        inits.append(b_ @ b_.conj().T / np.trace(b_ @ b_.conj().T))
+                p = oqupy.PtTebd(oqupy.AugmentedMPS(inits), chain, [pt] + [None] * (L - 1),
                                  oqupy.PtTebdParameters(dt=dt, order=rng.choice([1, 2]), epsrel=eps), dynamics_sites=list(range(L)) + subsets)
                 res = quiet(p.compute, n, progress_type="silent")
                 states = [st for site in list(range(L)) + subsets for st in res["dynamics"][site].states]
